@@ -61,6 +61,10 @@ func parseJSONMultiPoint(keys *parseKeys, opts *ParseOptions) (Object, error) {
 		if err != nil {
 			return false
 		}
+		if opts.RequireValid && !coords.Valid() {
+			err = errCoordinatesInvalid
+			return false
+		}
 		g.children = append(g.children, &Point{base: coords, extra: ex})
 		return true
 	})
